@@ -18,6 +18,8 @@ KEYS_STYLED = ["snake_case", "camelCase", "PascalCase", "kebab-case", "with spac
                "naïve", "straße", "приветx", "Ünïcode", "a\"b", "a\\b", "a'b", "tab\tkey", "new\nline", "q?mark",
                "UPPER", "mixedCASE_key", "a__b", "trailing_", "items", "children", "data", "ITEM-s", "x😀y",
                "dataclass", "attr", "BaseModel", "Literal", "Optional", "Union", "Dict", "converter", "json",
+               "schemaJson", "parseObj", "fromOrm", "updateForwardRefs", "convertStrings", "parseRaw", "SchemaJson",
+               "isInstance", "hasAttr", "classMethod", "notImplemented", "baseException",
                "lsep\u2028key", "nel\x85key", "vtab\x0bkey", "ffeed\x0ckey", "gsep\x1dkey"]
 KEYS_OUT = ["日本語a", "1abc", "0", "9lives", "_private", "__dunder__", "", "-", "日本", "***", " ", "fooBar", "foo_bar", "FooBar",
             "foo-bar", "😀"]
